@@ -286,6 +286,9 @@ def run(chk: Check) -> None:
     cdocs = [dict(d, keys=st) for st in styles for d in pairs]
     chk.require(len(cdocs) >= 50, "collision family too small")
     judge(chk, observe_import(chk, cdocs, "imp[collide]"), "import[collide]")
+    # the implementation-shaped model on the same family: SchemaParse!AnswersOwnNode (a parse call is never answered with the real
+    # entry built from another node) is what the design breaks here; the model's prediction is compared with the real parser
+    spconf.conformance(chk, cdocs, "collide")
     if thorough:
         docs = gen_graphs(chk, ["A", "B", "C"], ["ref", "arr", "inline", "map", "oneOf", "allOf"], 3, req=(False,))
         judge(chk, observe_ir(chk, docs, "ir[A+B+C,3]"), "ir[A+B+C,<=3]")
